@@ -1041,8 +1041,13 @@ pub fn part_c12(run: &mut Run, tier: &str) {
         }
     }
     // ---- PKE
-    let mut lens: Vec<usize> = if thorough { (0..=48).collect() } else { (0..=20).collect() };
-    lens.extend([31, 32, 33, 63, 64, 65, 255, 256, 65_535, 65_536, 65_537]);
+    // reduced run on the second configuration: the DEM layer does not depend on the curve or the
+    // ML-KEM parameters, only a few sizes are replayed there
+    let reduced = !thorough && crate::common::is_sub();
+    let mut lens: Vec<usize> = if thorough { (0..=48).collect() } else if reduced { vec![0, 1, 16] } else { (0..=20).collect() };
+    if !reduced {
+        lens.extend([31, 32, 33, 63, 64, 65, 255, 256, 65_535, 65_536, 65_537]);
+    }
     if thorough {
         lens.extend([4096, 1 << 20, (1 << 20) + 1]);
     }
@@ -1111,13 +1116,15 @@ pub fn part_c12(run: &mut Run, tier: &str) {
     }
     // ---- headers
     let mut mds: Vec<Option<Vec<u8>>> = vec![None, Some(vec![])];
-    let top = if thorough { 33 } else { 17 };
+    let top = if thorough { 33 } else if reduced { 3 } else { 17 };
     for n in 1..=top {
         mds.push(Some((0..n).map(|i| i as u8 ^ 0x5a).collect()));
     }
     mds.push(Some(vec![3u8; 64]));
     for n in [65_507usize, 65_508, 65_509, 65_535, 65_536, 65_537] {
-        mds.push(Some(vec![5u8; n]));
+        if !reduced {
+            mds.push(Some(vec![5u8; n]));
+        }
     }
     if thorough {
         mds.push(Some(vec![4u8; 1000]));
@@ -1125,8 +1132,10 @@ pub fn part_c12(run: &mut Run, tier: &str) {
     // every metadata length over the one- / two- / three-byte boundaries of the length prefix of
     // the encrypted metadata (28 bytes longer than the metadata), through the wire form
     {
-        let mut lens: Vec<usize> = (0..=if thorough { 1100 } else { 300 }).collect();
-        lens.extend(16_384 - 28 - if thorough { 200 } else { 40 }..=16_384 - 28 + if thorough { 200 } else { 110 });
+        let mut lens: Vec<usize> = (0..=if thorough { 1100 } else if reduced { 130 } else { 300 }).collect();
+        if !reduced {
+            lens.extend(16_384 - 28 - if thorough { 200 } else { 40 }..=16_384 - 28 + if thorough { 200 } else { 110 });
+        }
         if thorough {
             lens.extend(2_097_152 - 28 - 2..=2_097_152 - 28 + 2);
         }
